@@ -30,12 +30,20 @@ for name in sorted(os.listdir(os.path.join(VERIF, "seeded"))):
         meta["checks_alarmed"] = res
         meta["checks_run_on"] = "/repo with the patch applied (git apply), undone afterwards"
         meta["swept_at_repo_head"] = sh("git -C /repo rev-parse --short HEAD")[1].strip()
-        prop = meta["property"]
-        meta["caught_by_own_property_check"] = prop in res and res[prop]["exit"] == 1
-        meta["caught_by_any_check"] = any(v["exit"] == 1 for v in res.values())
-        rows.append((name, "caught" if meta["caught_by_own_property_check"] else
-                     ("caught-by-other" if meta["caught_by_any_check"] else "MISSED"),
-                     ",".join("%s:%s" % (k, "/".join(v["rules"])) for k, v in res.items())))
+        prop = meta.get("property")
+        if prop is None:
+            # behaviour-preserving refactoring: nothing may print a VIOLATION
+            meta["false_alarms"] = sorted(k for k, v in res.items() if v["exit"] == 1)
+            meta["analysis_errors"] = sorted(k for k, v in res.items() if v["exit"] == 2)
+            rows.append((name, "FALSE-ALARM" if meta["false_alarms"] else "silent",
+                         ",".join("%s:exit%d" % (k, v["exit"]) for k, v in res.items())))
+        else:
+            meta["caught_by_own_property_check"] = prop in res and res[prop]["exit"] == 1
+            meta["caught_by_any_check"] = any(v["exit"] == 1 for v in res.values())
+            rows.append((name, "caught" if meta["caught_by_own_property_check"] else
+                         ("caught-by-other" if meta["caught_by_any_check"] else "MISSED"),
+                         ",".join("%s:%s" % (k, "/".join(v["rules"])) for k, v in res.items())))
+        print("%-28s %-16s %s" % rows[-1], flush=True)
     json.dump(meta, open(os.path.join(d, "meta.json"), "w"), indent=1)
 for r in rows:
     print("%-28s %-16s %s" % r)
